@@ -32,7 +32,7 @@ fn meta() -> Meta {
     Meta {
         id: "C05",
         level: "model_checking",
-        rule: "every word over {set_new_spec(s), parse_new_spec(t), push_temp_spec(s), parse_and_push_temp_spec(t), pop_temp_spec} with 5 well-formed specifications (distinct max levels, two differing only in the text filter) and 3 malformed texts, up to the depth bound; the implementation state after each operation is compared with a reference stack machine; states = distinct (active spec, saved stack) model states reached; non-trivial = word contains a push and a later pop, or a malformed argument; plus one word of 24 nested pushes (with rejected malformed pushes in between) and their pops; RUST_LOG is set to another specification throughout",
+        rule: "every word over {set_new_spec(s), parse_new_spec(t), push_temp_spec(s), parse_and_push_temp_spec(t), pop_temp_spec} with 5 well-formed specifications (distinct max levels, two differing only in the text filter, one with three nesting levels whose innermost entry repeats the default level) and 3 malformed texts, up to the depth bound; the implementation state after each operation is compared with a reference stack machine; states = distinct (active spec, saved stack) model states reached; non-trivial = word contains a push and a later pop, or a malformed argument; plus one word of 24 nested pushes (with rejected malformed pushes in between) and their pops; RUST_LOG is set to another specification throughout",
         assumptions: vec![
             "one handle (the stack is per handle clone by design)".into(),
             "probe grid: 5 levels x 6 targets x 2 messages".into(),
@@ -48,7 +48,8 @@ fn specs() -> Vec<RefSpec> {
     };
     vec![
         m(None, &[], None),                                                              // off
-        m(Some(LevelFilter::Info), &[], None),                                           // info
+        // (three nesting levels, the innermost repeats the default: info, a=debug, a::b=info)
+        m(Some(LevelFilter::Info), &[("a", LevelFilter::Debug), ("a::b", LevelFilter::Info)], None),
         m(None, &[("a", LevelFilter::Trace)], None),                                     // a=trace
         m(Some(LevelFilter::Warn), &[("a::b", LevelFilter::Debug)], Some("x")),          // warn,a::b=debug/x
         m(Some(LevelFilter::Info), &[], Some("x")),                                      // info/x
